@@ -22,7 +22,7 @@ VARIABLES l, fails, m, pred, drift, ncase, cnt, prevS, seen, rs, fm, fc, done
 tvars == <<l, fails, m, pred, drift, ncase, cnt, prevS, seen, rs, fm, fc, done>>
 
 OpOf(r) == [side |-> r.side, op |-> r.op, phase |-> r.phase, res |-> r.res, anc |-> r.anc, tree |-> r.tree]
-KnownEv == {"Begin", "Cmd", "EndpointOp", "Edit", "Roots", "Disk", "State", "Stream", "End", "CaseAborted", "Infra",
+KnownEv == {"Begin", "Cmd", "EndpointOp", "Edit", "Roots", "Disk", "State", "Stream", "Break", "End", "CaseAborted", "Infra",
             "FBegin", "FCmd", "FEndpointOp", "FDisk", "FState", "FConns", "FEnd", "FInfra"}
 
 \* ------------------------------------------------------------------ forwarding sessions (FwdLifecycle.tla): the same
@@ -95,7 +95,7 @@ Drift(r, p) == IF r.ev = "Cmd" /\ r.phase = "return" /\ r.id \in DOMAIN p /\ p[r
 \* how often the antecedents of the properties were established by real observations (vacuity control)
 Cnt0 == [halts |-> 0, quiets |-> 0, flushok |-> 0, terms |-> 0, resets |-> 0, pausedobs |-> 0, cycles |-> 0,
          stchk |-> 0, stdrift |-> 0, stream |-> 0, strdrift |-> 0, strdirect |-> 0,
-         recyc |-> 0, recdrift |-> 0, rwaits |-> 0, rwdrift |-> 0]
+         recyc |-> 0, recdrift |-> 0, rwaits |-> 0, rwdrift |-> 0, breaks |-> 0, rdchk |-> 0, rdnot |-> 0]
 \* scan retry timing (the trace has clocks, the monitor has none): rs = [n: try-again scans in a row, t: when the last
 \* one returned]; the scan that follows two or more in a row must start at least rescanWaitDuration later
 RescanWaitMs == 4900
@@ -129,7 +129,12 @@ Bump(c, r, m0, m1, p, x) ==
    recyc |-> c.recyc + (IF r.ev = "EndpointOp" THEN m1.rcok - m0.rcok ELSE 0),
    recdrift |-> c.recdrift + (IF r.ev = "EndpointOp" THEN m1.rcdrift - m0.rcdrift ELSE 0),
    rwaits |-> c.rwaits + (IF WaitedScan(r, x) THEN 1 ELSE 0),
-   rwdrift |-> c.rwdrift + (IF WaitedScan(r, x) /\ r.t - x.t < RescanWaitMs THEN 1 ELSE 0)]
+   rwdrift |-> c.rwdrift + (IF WaitedScan(r, x) /\ r.t - x.t < RescanWaitMs THEN 1 ELSE 0),
+   \* persistence faults injected; "a resume that returned ok has persisted not-paused" (not implied by C29, and not
+   \* true of the controller as coded after a failed save: counted, see docs)
+   breaks |-> c.breaks + (IF r.ev = "Break" /\ r.on THEN 1 ELSE 0),
+   rdchk |-> c.rdchk + (IF r.ev = "Disk" /\ r.stable /\ m0.pz = "no" /\ ~m0.term /\ m0.infl = {} THEN 1 ELSE 0),
+   rdnot |-> c.rdnot + (IF r.ev = "Disk" /\ r.stable /\ ~ResumeOnDisk(m0, r) THEN 1 ELSE 0)]
 
 \* the previous sample of the stream; forgotten where the state object itself is replaced (a new manager) or gone
 NextSample(r, p) ==
@@ -163,6 +168,8 @@ Finish == /\ l = NRec + 1 /\ ~done
                                         stat_stream_direct |-> cnt.strdirect, stat_statuses_seen |-> Cardinality(seen),
                                         stat_recycles |-> cnt.recyc, stat_recycle_drift |-> cnt.recdrift,
                                         stat_rescan_waits |-> cnt.rwaits, stat_rescan_wait_drift |-> cnt.rwdrift,
+                                        stat_persistence_faults |-> cnt.breaks, stat_resume_disk_checked |-> cnt.rdchk,
+                                        stat_resume_not_persisted |-> cnt.rdnot,
                                         stat_fwd_cases |-> fc.cases, stat_fwd_quiets |-> fc.quiets, stat_fwd_quiet_drift |-> fc.quietdrift,
                                         stat_fwd_pause_checked |-> fc.pausechk, stat_fwd_pause_drift |-> fc.pausedrift,
                                         stat_fwd_term_checked |-> fc.termchk, stat_fwd_term_drift |-> fc.termdrift,
